@@ -14,7 +14,7 @@ from vfw.schema import T
 BOUNDS = ("containers SEQUENCE and SET {id INTEGER, blob ANY DEFINED BY id}, blob untagged / [3] IMPLICIT / [3] EXPLICIT, and SET OF ANY / SEQUENCE OF ANY blobs (0..2 "
           "elements); default map {1: INTEGER, 2: OCTET STRING, 3: SEQUENCE{x INTEGER, y BOOLEAN DEFAULT FALSE}, 4: SEQUENCE OF INTEGER}; governing value g in {0, mapped key, 5, 6, 2} "
           "(mapped, unmapped, mapped only by the caller's override); inner values symbolic (integers |n| <= 300, octets <= 2, 0..2 elements); codecs BER definite, BER indefinite, CER, DER; "
-          "one-shot decode and StreamingDecoder; decodeOpenTypes on/off; caller map {5: INTEGER, 2: INTEGER} (adding a key and redefining a key of the default map) present/absent")
+          "one-shot decode and StreamingDecoder; default map given complete or filled after the schema was built; decodeOpenTypes on/off; caller map {5: INTEGER, 2: INTEGER} (adding a key and redefining a key of the default map) present/absent")
 OUTSIDE = "OID-governed maps (the governing value is hashed either way); maps to CHOICE; nested open types"
 
 I_T = T("INT")
@@ -27,11 +27,16 @@ CODECS = [(ber_encoder, ber_decoder, {"defMode": True}), (ber_encoder, ber_decod
 _CACHE = {}
 
 
-def _schema(container, tagging, vector):
+def _schema(container, tagging, vector, late=False):
     key = (container, tagging, vector)
-    if key in _CACHE:
+    if key in _CACHE and not late:
         return _CACHE[key]
-    ot = opentype.OpenType("id", dict((k, mk_type(t)) for k, t in INNER.items()))
+    if late:
+        # the documented run-time registration pattern: the schema is built around a (still empty) map that is filled afterwards
+        live = {}
+        ot = opentype.OpenType("id", live)
+    else:
+        ot = opentype.OpenType("id", dict((k, mk_type(t)) for k, t in INNER.items()))
     any_ = univ.Any()
     if tagging == 1:
         any_ = univ.Any().subtype(implicitTag=tag.Tag(tag.tagClassContext, tag.tagFormatSimple, 3))
@@ -45,6 +50,9 @@ def _schema(container, tagging, vector):
         blob = any_
     base = univ.Sequence if container == 0 else univ.Set
     s = base(componentType=namedtype.NamedTypes(namedtype.NamedType("id", univ.Integer()), namedtype.NamedType("blob", blob, openType=ot)))
+    if late:
+        live.update((k, mk_type(t)) for k, t in INNER.items())
+        return s
     _CACHE[key] = s
     return s
 
@@ -74,11 +82,11 @@ def _resolved_which(g, override):
     return None
 
 
-def opentype_rt(container, tagging, vector, codec, gsel, which, n, o0, o1, f0, k, nelem, resolve, override, streaming=False):
+def opentype_rt(container, tagging, vector, codec, gsel, which, n, o0, o1, f0, k, nelem, resolve, override, streaming=False, late=False):
     # governing value: 0 = unmapped (0), 1 = the key mapped to the inner value's type, 2 = 5 (mapped only by the caller's override), 3 = 6 (unmapped),
     # 4 = 2 (mapped by the default map AND redefined by the caller's override)
     g = (0, which, 5, 6, 2)[gsel]
-    spec = _schema(container, tagging, vector)
+    spec = _schema(container, tagging, vector, late)
     enc, dec, eopts = CODECS[codec]
     # the inner value's type: the one the applicable map says when g is mapped, otherwise any of the four (the field is opaque then)
     rw = _resolved_which(g, override)
@@ -146,7 +154,7 @@ def opentype_rt(container, tagging, vector, codec, gsel, which, n, o0, o1, f0, k
 
 
 P = {"container": I(0, 1), "tagging": I(0, 2), "vector": I(0, 2), "codec": I(0, 3), "gsel": I(0, 4), "which": I(1, 4), "n": I(127, 128), "o0": BYTE, "o1": BYTE,
-     "f0": B, "k": I(0, 1), "nelem": I(0, 2), "resolve": B, "override": B, "streaming": B}
+     "f0": B, "k": I(0, 1), "nelem": I(0, 2), "resolve": B, "override": B, "streaming": B, "late": B}
 
 
 def _shards(tier):
@@ -177,6 +185,6 @@ def _shards(tier):
 
 
 OBLIGATIONS = [
-    Obl("opentype_rt", opentype_rt, P, shards=_shards("quick"), thorough_shards=_shards("thorough"), thorough={"n": I(0, 200)}, budget=90, thorough_budget=240,
+    Obl("opentype_rt", opentype_rt, P, shards=_shards("quick"), thorough_shards=_shards("thorough"), thorough={"n": I(0, 200)}, budget=180, thorough_budget=400,
         doc="encode typed inner value -> decode with/without open type resolution, every codec, tagging, container and vector form"),
 ]
